@@ -9,6 +9,10 @@ LARK = [
     # reached through different histories)
     ("shared_lexeme", 'start: "a" X | "b" X "!"\nX: /[0-9]+/\n'),
     ("ab_abc", 'start: "ab" | "abc"\n'),
+    # more shapes in which different histories reach the same lexer state and row index
+    ("shared_lexeme2", 'start: "x=" NUM ";" | "y=" NUM "!" | "z=" NUM NUM2 "?"\nNUM: /[0-9]+/\nNUM2: /\\.[0-9]+/\n'),
+    ("shared_lexeme3", 'start: cmd+\ncmd: "get " ID ";" | "set " ID "=" ID ";" | "del " ID "!"\nID: /[a-z]+/\n'),
+    ("shared_lexeme4", 'start: "<" T ">" | "[" T "]" | "(" T T ")"\nT: /[a-c]{1,3}/\n'),
     ("fixed", 'start: "ab"\n'),
     ("forced_then_free", 'start: "abc" /[de]+/ "ab"\n'),
     ("arith", 'start: expr\nexpr: term | expr "+" term | expr "-" term\nterm: atom | term "*" atom\n'
